@@ -475,8 +475,9 @@ func c02Body(r *vlib.Run) int {
 	}
 	_ = poolMu
 	var silence sync.WaitGroup
-	silence.Add(1)
+	silence.Add(2)
 	go func() { defer silence.Done(); c02Silence(r) }()
+	go func() { defer silence.Done(); c02SlowStart(r) }()
 	defer silence.Wait()
 	vlib.Parallel(len(cases), 12, func(i int) {
 		c := cases[i]
@@ -558,6 +559,58 @@ func c02Silence(r *vlib.Run) {
 				"exit": res.Exit, "hung": res.Hung, "selected": want, "delivered": got, "damaged_records": len(obs.malformed), "stderr": vlib.Trunc(string(res.Stderr), 800)})
 		}
 	})
+}
+
+// c02SlowStart: the server does not answer for 6-8 s when the client starts (a busy machine, a stopped process): the
+// connection is ready long after the client began. Everything requested must still be delivered (one command: a
+// wildcard over two files; and a comma list, judged like every multi-command session).
+func c02SlowStart(r *vlib.Run) {
+	fl, err := startFleet(r, "c02slow", 1, map[string]interface{}{"MaxConcurrentCats": 2, "MaxConnections": 20}, nil, "error")
+	if err != nil {
+		r.Inconclusive("fleet-start")
+		return
+	}
+	defer fl.Stop()
+	dir := r.Dir("c02slowfiles")
+	defer os.RemoveAll(dir)
+	want := map[int][]int{}
+	for f := 0; f < 2; f++ {
+		c02WriteFile(filepath.Join(dir, fmt.Sprintf("f%02d.log", f)), f, 299)
+		for q := 1; q <= 299; q++ {
+			want[f] = append(want[f], q)
+		}
+	}
+	pid := fl.Servers[0].D.Pid()
+	for k := 0; k < r.N(2, 6); k++ {
+		stopFor := time.Duration(6000+700*k) * time.Millisecond
+		syscall.Kill(pid, syscall.SIGSTOP)
+		timer := time.AfterFunc(stopFor, func() { syscall.Kill(pid, syscall.SIGCONT) })
+		full := append(append(fl.ClientArgs(), "--logger", "stdout", "--logLevel", "error"), "--plain", "--files", filepath.Join(dir, "f0*.log"))
+		res, out := runPaced(vlib.Cmd{Path: r.Bin("dcat"), Args: full, Env: fl.ClientEnv(), Dir: fl.Home, Watchdog: 240 * time.Second}, pacing{Kind: "fast"}, 65536)
+		timer.Stop()
+		syscall.Kill(pid, syscall.SIGCONT)
+		r.Eval(fmt.Sprintf("slow-start|%d", k))
+		r.Count("sessions_whose_server_answered_only_after_seconds", 1)
+		if res.TimedOut {
+			r.Inconclusive("dcat-watchdog")
+			continue
+		}
+		obs := c02Parse(out, map[int]int{1: 299}) // file 1 ends without a final newline ((file+lines)%3 == 0)
+		ok := res.Exit == 0 && !res.Hung && len(obs.malformed) == 0 && !obs.cutTail
+		for f := 0; f < 2; f++ {
+			if !equalInts(obs.perFile[f], want[f]) {
+				ok = false
+			}
+		}
+		if !ok {
+			kind := "lines-lost-duplicated-or-reordered"
+			if res.Hung {
+				kind = "session-did-not-terminate"
+			}
+			r.Violation(kind, map[string]interface{}{"scenario": fmt.Sprintf("server stopped (SIGSTOP) for %v while the client starts; two files of 299 lines behind one wildcard", stopFor),
+				"exit": res.Exit, "hung": res.Hung, "lines_file_0": len(obs.perFile[0]), "lines_file_1": len(obs.perFile[1]), "damaged_records": len(obs.malformed), "stderr": vlib.Trunc(string(res.Stderr), 800)})
+		}
+	}
 }
 
 func c02Run(r *vlib.Run, i int, c *c02Case, cfgs map[int]string, free chan *c02Server) {
